@@ -1159,19 +1159,25 @@ func (c *Conn) readAll(r io.Reader, size int) (*[]byte, error) {
 			}
 			return pbuf, err
 		}
+		// The limit applies to what has been inflated so far, whatever capacity
+		// the allocator handed out.
+		if c.isMessageTooLarge(len(*pbuf)) {
+			c.Engine.BodyAllocator.Free(pbuf)
+			return nil, ErrMessageTooLarge
+		}
 		if len(*pbuf) == cap(*pbuf) {
 			l := len(*pbuf)
-			// can not extend more bytes.
-			if c.isMessageTooLarge(l + 1) {
-				return nil, ErrMessageTooLarge
-			}
 			al := l
 			if al > maxAppendSize {
 				al = maxAppendSize
 			}
-			// extend to the limit size at most.
-			if (c.MessageLengthLimit > 0) && (l+al > c.MessageLengthLimit) {
-				al = c.MessageLengthLimit - l
+			if al < 64 {
+				al = 64
+			}
+			// extend to one byte beyond the limit at most: a message of exactly
+			// the limit is legal, one more byte shows that it is too large.
+			if (c.MessageLengthLimit > 0) && (l+al > c.MessageLengthLimit+1) {
+				al = c.MessageLengthLimit + 1 - l
 			}
 			pbuf = c.Engine.BodyAllocator.Append(pbuf, make([]byte, al)...)
 			*pbuf = (*pbuf)[:l]
